@@ -57,7 +57,7 @@ func (PoolH) Prepare(t *testing.T, c *hx.Case) {
 	}
 }
 
-var txKinds = []string{"valid", "valid", "valid", "child", "child", "child", "double-low", "double-high", "double-high", "orphan", "orphan-parent",
+var txKinds = []string{"valid", "valid", "valid", "child", "child", "child", "double-low", "double-high", "double-high", "orphan", "orphan-parent", "double-and-child", "double-and-child", "just-mature", "just-mature",
 	"badsig", "overspend", "immature", "dup", "dupinput", "nonfinal", "local", "trusted"}
 
 func (PoolH) Gen(prop string, seed uint64, tier string) *hx.Case {
@@ -324,6 +324,56 @@ func (p *poolRun) doTx(o *PoolOp) {
 			p.out.Probe("replacement_accepted", 1)
 		} else {
 			p.out.Probe("replacement_refused", 1)
+		}
+	case "double-and-child":
+		// a replacement that also spends an output of the very transaction it replaces
+		ins := p.pickCoins(r, 1, false, true)
+		if len(ins) == 0 {
+			return
+		}
+		k, ok := txpool.SpentOutputs[btc.UIdx(ins[0].Op.Hash[:], ins[0].Op.N)]
+		if !ok {
+			return
+		}
+		x := txpool.TransactionsToSend[k]
+		if x == nil {
+			return
+		}
+		for vo, out := range x.TxOut {
+			if _, sp := p.m.W.Spendable(out.Pk_script); sp && out.Value > 3000 && !p.poolSpent(ledger.OutPoint{Hash: x.Hash.Hash, N: uint32(vo)}) {
+				ins = append(ins, ledger.CoinRef{Op: ledger.OutPoint{Hash: x.Hash.Hash, N: uint32(vo)}, Coin: ledger.Coin{Value: out.Value, Pk: out.Pk_script, Height: height}})
+				break
+			}
+		}
+		if len(ins) < 2 {
+			return
+		}
+		if r.Chance(0.4) {
+			ins = append(ins, p.pickCoins(r, 1, true, false)...) // and something of an unrelated pooled transaction
+		}
+		t := p.m.MakeTx(height, ins, 1, sum(ins)/uint64(r.Range(3, 8)), -1, ledger.COk)
+		p.out.Probe("replacement_spending_its_victim_submitted", 1)
+		if p.submit(t, path) {
+			p.out.Probe("replacement_spending_its_victim_accepted", 1)
+		}
+	case "just-mature":
+		// spends a coinbase output that is exactly mature for the next block (and immature again if the tip is undone)
+		var ins []ledger.CoinRef
+		for op, c := range p.model.UTXO() {
+			if c.Coinbase && height-c.Height == 100 && !p.poolSpent(op) {
+				if _, sp := p.m.W.Spendable(c.Pk); sp && c.Value > 3000 {
+					ins = append(ins, ledger.CoinRef{Op: op, Coin: c})
+				}
+			}
+		}
+		if len(ins) == 0 {
+			return
+		}
+		sort.Slice(ins, func(i, j int) bool { return bytes.Compare(ins[i].Op.Hash[:], ins[j].Op.Hash[:]) < 0 || (ins[i].Op.Hash == ins[j].Op.Hash && ins[i].Op.N < ins[j].Op.N) })
+		ins = ins[:1]
+		t := p.m.MakeTx(height, ins, 1, feeFor(sum(ins)), -1, ledger.COk)
+		if p.submit(t, path) {
+			p.out.Probe("spend_of_just_matured_coinbase_accepted", 1)
 		}
 	case "orphan":
 		ins := p.pickCoins(r, 1, false, false)
